@@ -120,7 +120,9 @@ def impl_init():
                 # ... and the written signature, loaded as a one-record database into the SAME Database object every time, labels the packet
                 if m is not None and ps.ttl >= 1 and int(k.tcp.type) in (2, 0x12) and not k.ip.is_fragment:
                     sec = "request" if int(k.tcp.type) == 2 else "response"
-                    U.load_db("[tcp:%s]\nlabel = s:unix:Written:x\nsig = %s\n" % (sec, text), shared_db)
+                    # (observations are appended to the file one block at a time, each under its own section header: the section continues)
+                    more = "[tcp:%s]\nlabel = s:unix:Appended:later\nsig = 4:255:0:1:31337,0:mss::0\n" % sec if len(text) % 2 else ""
+                    U.load_db("[tcp:%s]\nlabel = s:unix:Written:x\nsig = %s\n%s" % (sec, text, more), shared_db)
                     try:
                         r = fingerprint_tcp(k, options=Options(database=shared_db))
                         out["db_match"] = None if r.match is None else r.match.type.name
